@@ -9,10 +9,11 @@ T == JsonDeserialize(IOEnv.VERIF_TRACE)
 VARIABLES tid, done, verdict
 vars == <<tid, done, verdict>>
 Init == tid \in 1..Len(T) /\ done = FALSE /\ verdict = ""
+MayRun(R, i) == \E j \in DOMAIN R.may_run : R.may_run[j] = R.ran[i]        \* (may_run is a sequence, possibly empty)
 Why(R) ==
   IF \E i \in DOMAIN R.resolved : ~R.resolved[i].ok
   THEN "a global outside the allowlist was resolved: " \o R.resolved[CHOOSE i \in DOMAIN R.resolved : ~R.resolved[i].ok].n
-  ELSE IF \E i \in DOMAIN R.ran : R.ran[i] \notin R.may_run THEN "a callable outside the allowlist executed: " \o R.ran[CHOOSE i \in DOMAIN R.ran : R.ran[i] \notin R.may_run]
+  ELSE IF \E i \in DOMAIN R.ran : ~MayRun(R, i) THEN "a callable outside the allowlist executed: " \o R.ran[CHOOSE i \in DOMAIN R.ran : ~MayRun(R, i)]
   ELSE IF R.outsider /\ R.out # "unsafe" THEN "a load containing an outsider did not abort with the unsafe-file error (" \o R.out \o ")"
   ELSE IF ~R.outsider /\ R.out # "returned" /\ R.case.layer = "ml"
        \* (R.out = "unsafe": the environment refused a global of the built-in list or of the caller's additions - the set it
